@@ -21,7 +21,8 @@ RULE = ('(type in the 5 fragmentable types) x framing mode x fragment size x dat
         'the original; a frame that fits is one fragment; FrameFragmentCache reassembles the original frame and is '
         'empty afterwards; both codec backends; plus reconnect histories of one client object in which the server was half '
         'way through a fragmented request when the connection ended and the next connection carries a fragmented request '
-        'on the same stream id (what the handler receives == what was sent). Non-trivial = >= 2 fragments or total length within 3 bytes of the '
+        'on the same stream id (what the handler receives == what was sent), and wide programs of 17-48 concurrent requests '
+        'with multi-fragment payloads whose trains are interleaved with streams that start and finish meanwhile. Non-trivial = >= 2 fragments or total length within 3 bytes of the '
         'single-frame limit; distinct = distinct (type, mode, size, dlen, mlen, flags).')
 ASSUMPTIONS = ['reference codec (harness/refcodec.py) decodes the fragments',
                'payload contents are a deterministic non-periodic pattern, so lengths identify a case']
@@ -298,6 +299,30 @@ def reconnect_prop(wrapped):
     return vs
 
 
+def interleave_prop(program):
+    """Reassembly while other streams come and go: many concurrent requests with multi-fragment payloads (C01's wide programs and C05's multiplexing programs: trains interleaved with frames of streams
+    that start and finish meanwhile): every request and response is put together exactly."""
+    from harness import monitors
+    from harness.programs import run_program
+    tr = run_program(program)
+    vs = monitors.mon_delivery(tr, PID)
+    info['nt'] = True
+    info['classes'] = ['part=interleaved_trains', 'requests=%d' % len(program['inter'])]
+    return vs
+
+
+def interleave_shard(tier, seed, n):
+    from harness.checks import c01
+    common.use_repo()
+    stats = common.Stats()
+    known = common.Known(PID)
+    from harness.checks import c05
+    strat = st.one_of(c01.wide_programs(), c05.programs().map(c05.sanitize), c05.programs().map(c05.sanitize))
+    common.hyp_search(stats, known, strat.map(lambda p_: dict(p_, interleave=True)), interleave_prop, n, seed,
+                      classify=classify, shrink=False)
+    return stats
+
+
 def reconnect_shard(tier, seed, n):
     from harness.checks import c05
     common.use_repo()
@@ -329,6 +354,8 @@ def run(tier, seed):
         jobs.append(('hyp_shard', dict(tier=tier, seed=s, n=nh // nsh)))
     for s in common.shard_seeds(seed, 4):
         jobs.append(('reconnect_shard', dict(tier=tier, seed=s + 31, n=(160 if tier == 'quick' else 4000) // 4)))
+    for s in common.shard_seeds(seed, 4):
+        jobs.append(('interleave_shard', dict(tier=tier, seed=s + 53, n=(480 if tier == 'quick' else 12000) // 4)))
     stats = common.run_shards_multi(__name__, jobs)
     stats.exhaustive = None  # the windows are exhaustive, the Hypothesis part is not: say so in a dedicated key
     stats.extra['exhaustive_windows'] = ['%s/%s/size=%d/complete=%s' % (t, 'length-prefixed' if lp else 'message', s, c)
@@ -342,6 +369,9 @@ def replay(path):
     if 'reconnect' in c:
         common.use_repo()
         return common.report_replay(PID, path, reconnect_prop(c))
+    if c.get('interleave'):
+        common.use_repo()
+        return common.report_replay(PID, path, interleave_prop(c))
     if 'lp' in c and 'next' not in c:
         c = dict(c, next=False, n=7 if (c['dlen'] + c['mlen']) % 3 else 0x7FFFFFFF)
     common.use_repo()
